@@ -34,7 +34,7 @@ class Scene:
 
 def build(shape, faces, widths=None, spacing=50e-9, complex_fields=None, bloch_vector=(0.0, 0.0, 0.0),
           pml_thickness=2, extra_objects=(), extra_constraints=(), time=1e-15, gradient="reversible",
-          courant_factor=0.99, symmetry=(0, 0, 0), dtype="float64", extra_fn=None):
+          courant_factor=0.99, symmetry=(0, 0, 0), dtype="float64", extra_fn=None, origin=(0.0, 0.0, 0.0)):
     """place a volume of `shape` cells with the given face kinds
     (none | periodic | bloch | pec | pmc | pml); `widths` = per-axis cell-width lists for a RectilinearGrid"""
     j = J()
@@ -42,7 +42,7 @@ def build(shape, faces, widths=None, spacing=50e-9, complex_fields=None, bloch_v
     if widths is None:
         grid = fdtdx.UniformGrid(spacing=spacing)
     else:
-        edges = [np.concatenate([[0.0], np.cumsum(np.asarray(w, dtype=np.float64))]) for w in widths]
+        edges = [o + np.concatenate([[0.0], np.cumsum(np.asarray(w, dtype=np.float64))]) for w, o in zip(widths, origin)]  # origin: lower corner
         grid = fdtdx.RectilinearGrid(x_edges=jnp.asarray(edges[0]), y_edges=jnp.asarray(edges[1]), z_edges=jnp.asarray(edges[2]))
     gc = None
     if gradient == "reversible":
@@ -121,6 +121,24 @@ def impl_backward(scene, state, n=1, record_detectors=False, reset_fields=False)
 
 
 # ------------------------------------------------------------------------------- request encoding
+def declared_nonuniform(scene):
+    """True when the scene's grid is graded.  Decided from the DECLARED widths when there are any (a grid that the
+    code misclassifies as uniform must not drag the model and the energy oracle along), else from the config."""
+    w = getattr(scene, "widths", None)
+    if w is not None and all(len(w[a]) == scene.shape[a] for a in range(3)):
+        w0 = float(w[0][0])
+        if any(abs(float(x) - w0) > 1e-3 * abs(w0) for ax in w for x in ax):
+            return True
+    return bool(scene.config.has_nonuniform_grid)
+
+
+def declared_widths(scene, ax):
+    w = getattr(scene, "widths", None)
+    if w is not None and all(len(w[a]) == scene.shape[a] for a in range(3)) and declared_nonuniform(scene):
+        return np.asarray(w[ax], dtype=np.float64)
+    return np.asarray(scene.config.resolved_grid.cell_widths(ax), dtype=np.float64)
+
+
 def axis_info(scene, axis):
     """(wrap, pp, pm, lo_kind, hi_kind): halo rule of one axis read from the placed boundary objects"""
     lo, hi = scene.faces.get(FACES[2 * axis], "none"), scene.faces.get(FACES[2 * axis + 1], "none")
@@ -169,11 +187,11 @@ def request(scene, op, E, H, inv_eps, inv_mu, sig_e=None, sig_h=None, src=None, 
     for ax in range(3):
         t += _axis_tokens(scene, ax, is_complex)
     cfg = scene.config
-    if cfg.has_nonuniform_grid:
+    if declared_nonuniform(scene):
         ref = j["c0"] * float(cfg.time_step_duration) / float(cfg.courant_number)
         t += ["n", f2h(ref)]
         for ax in range(3):
-            t += [f2h(x) for x in np.asarray(cfg.resolved_grid.cell_widths(ax), dtype=np.float64)]
+            t += [f2h(x) for x in declared_widths(scene, ax)]
     else:
         t += ["u"]
     t += [f2h(float(cfg.courant_number)), f2h(j["eta0"])]
@@ -213,8 +231,8 @@ def np_widths(scene):
     out = []
     for ax in range(3):
         n = scene.shape[ax]
-        if cfg.has_nonuniform_grid:
-            w = np.asarray(cfg.resolved_grid.cell_widths(ax), dtype=np.float64)
+        if declared_nonuniform(scene):
+            w = declared_widths(scene, ax)
         else:
             w = np.ones(n)
         wp = np.concatenate([w[:1], w[:-1]])
@@ -226,7 +244,7 @@ def np_curl_E(scene, E):
     """forward-difference curl with the halo of the scene (numpy re-implementation, oracle side); returns raw
     finite differences divided by the primal widths (in units where reference spacing = 1 on uniform grids)"""
     wd = np_widths(scene)
-    if not scene.config.has_nonuniform_grid:
+    if not declared_nonuniform(scene):
         sc = [np.ones(n) for n in scene.shape]
     else:
         j = J()
